@@ -318,7 +318,14 @@ class GeneratorObject(Generic[T, V]):
 
 
 class GeneratorObjectIterator(AsyncGenerator[T_co, T_contra]):
-    __slots__ = ["monitor", "coro", "ag_running", "finalizer", "__weakref__"]
+    __slots__ = [
+        "monitor",
+        "coro",
+        "ag_running",
+        "finalizer",
+        "hooks_inited",
+        "__weakref__",
+    ]
 
     def __init__(self, monitor: Monitor[Any], coro: Coroutine[Any, Any, Any]) -> None:
         self.monitor = monitor
@@ -326,6 +333,7 @@ class GeneratorObjectIterator(AsyncGenerator[T_co, T_contra]):
         # Mypy thinks ag_running is read-only
         self.ag_running = False  # type: ignore[misc]
         self.finalizer: Optional[Callable[[Any], None]] = None
+        self.hooks_inited = False
 
     def __aiter__(self) -> AsyncIterator[T_co]:
         return self
@@ -334,10 +342,16 @@ class GeneratorObjectIterator(AsyncGenerator[T_co, T_contra]):
         return await self.asend(None)
 
     def __del__(self) -> None:
-        if self.finalizer:
+        # like a native async generator, only one that has not run to its end
+        # is handed to the finalizer
+        if self.finalizer and not coro_is_finished(self.coro):
             self.finalizer(self)
 
     def _first_iter(self) -> None:
+        # once per generator: a refused first send() leaves the coroutine unstarted
+        if self.hooks_inited:
+            return
+        self.hooks_inited = True
         hooks = sys.get_asyncgen_hooks()
         if hooks.firstiter is not None:
             hooks.firstiter(self)
